@@ -119,7 +119,7 @@ theorem unpack_packedPayload (l : List Nat) (h : ∀ x ∈ l, x < 2 ^ 64) :
 
 theorem toInt32_id {x : Nat} (h : x < 2 ^ 31) : toInt32 x = .ok x := by
   have h1 : x % 2 ^ 32 = x := Nat.mod_eq_of_lt (by omega)
-  simp [toInt32, h1, h]
+  simp [toInt32, h1]
 
 theorem toUint32_id {x : Nat} (h : x < 2 ^ 32) : toUint32 x = x := Nat.mod_eq_of_lt h
 
